@@ -316,7 +316,7 @@ fn atom_datum(ch: &mut Chooser) -> Datum {
         2 => Datum::Str(ch.pick_s(&["s", "t"]).to_string()),
         3 => Datum::Bool(ch.chance(1, 2)),
         4 => Datum::Char(*ch.pick(&['a', 'b'])),
-        _ => Datum::Sym(ch.pick_s(&["y", "z", "w", "else", "=>"]).to_string()),
+        _ => Datum::Sym(ch.pick_s(&["y", "z", "w", "else", "=>", "quote"]).to_string()),
     }
 }
 
@@ -479,7 +479,12 @@ fn mutate(ch: &mut Chooser, d: &Datum, literals: &[String]) -> Datum {
         Datum::List(items, None) | Datum::Vector(items) => {
             let mut v = items.clone();
             let is_list = matches!(d, Datum::List(..));
-            match ch.below(7) {
+            match ch.below(8) {
+                // an element becomes a quotation of itself: 'x is the two-element list (quote x)
+                7 if !v.is_empty() => {
+                    let i = ch.below(v.len());
+                    v[i] = Datum::List(vec![Datum::Sym("quote".into()), v[i].clone()], None);
+                }
                 6 if is_list && !v.is_empty() => {
                     // the same elements with a dotted tail
                     return Datum::List(v, Some(Box::new(Datum::Int(7))));
